@@ -245,3 +245,60 @@ def long_history(rng):
     """the same kinds of snippets, 40 to 150 of them on one interpreter: whatever a failed run, an import, a reset or a
     probe battery leaves behind has dozens of later runs in which to show"""
     return history(rng, n=rng.choice([40, 60, 64, 65, 100, 128, 150]))
+
+
+DEEP_PROBE = '''fn pr_rec(n) { if n == 0 { return 0; } return 1 + pr_rec(n - 1); }
+print(pr_rec(55));
+fn pr_fib(n) { if n == 0 { return "bottom"; } var f = Fiber.new(|| pr_fib(n - 1)); return f.call(); }
+print(pr_fib(12));
+fn pr_try(n) { if n == 0 { throw "deep"; } try { return pr_try(n - 1); } finally { pr_count += 1; } }
+var pr_count = 0; try { pr_try(40); } catch e { print(e); } print(pr_count);
+var pr_gen = Fiber.new(|| { for i in 0..3 { Fiber.yield(i); } return "end"; });
+print([pr_gen.call(), pr_gen.call(), pr_gen.call(), pr_gen.call(), pr_gen.has_finished()]);
+'''
+
+
+def repeat_history(rng):
+    """one kind of failing snippet repeated 10 to 300 times on one interpreter, then the probe batteries (incl. 55 frames of
+    recursion, a dozen nested fibers, forty nested handlers): whatever each failure leaves behind - a counter not wound
+    back, a handler, a frame, a registry entry - has been left behind that many times"""
+    r = rng
+    n = r.choice([10, 33, 64, 65, 70, 130, 300])
+    kind = r.below(12)
+    depth = r.range(1, 9)
+    if kind == 0:
+        snip = "var f%(k)d = Fiber.new(|| { nil + 1; });\nf%(k)d.call();\n"
+    elif kind == 1:
+        snip = "fn nest%(k)d(n) { if n == 0 { throw \"deep fiber\"; } var f = Fiber.new(|| nest%(k)d(n - 1)); return f.call(); }\nnest%(k)d(" + str(depth) + ");\n"
+    elif kind == 2:
+        snip = "fn down%(k)d(n) { if n == 0 { return [][1]; } return down%(k)d(n - 1); }\ndown%(k)d(" + str(depth * 5) + ");\n"
+    elif kind == 3:
+        snip = "fn tf%(k)d(n) { try { if n == 0 { throw \"x\"; } return tf%(k)d(n - 1); } finally { var_count = var_count + 1; } }\ntf%(k)d(" + str(depth) + ");\n"
+    elif kind == 4:
+        snip = "var = %(k)d;\n"
+    elif kind == 5:
+        snip = "import \"" + r.choice(["throws", "broken", "missing"]) + "\" as bad%(k)d;\n"
+    elif kind == 6:
+        snip = "#[constructor(new)] class Half%(k)d { fn m(self) { return undefined_name_%(k)d; } }\nHalf%(k)d.new().m();\n"
+    elif kind == 7:
+        snip = "print([1, 2, 3].iter().map(|x| x + nil).collect());\n"
+    elif kind == 8:
+        snip = "var g%(k)d = Fiber.new(|| { Fiber.yield(1); throw \"later\"; });\ng%(k)d.call();\ng%(k)d.call();\n"
+    elif kind == 9:
+        snip = "var s%(k)d = Fiber.new(|| { var inner = Fiber.new(|| { Fiber.yield(\"parked\"); }); inner.call(); nil(); });\ns%(k)d.call();\n"
+    elif kind == 10:
+        snip = "for i in 0..3 { var c%(k)d = || i; if i == 2 { c%(k)d.nope; } }\n"
+    else:
+        snip = "var notcls%(k)d = 3;\n#[derive(notcls%(k)d)] class Bad%(k)d {}\n"
+    steps = [("snip", "var var_count = 0;\nprint(\"start\");\n")]
+    for k in range(n):
+        steps.append(("snip", snip % {"k": k}))
+        if k in (n // 3, (2 * n) // 3):
+            steps.append(("snip", PROBE))
+    steps.append(("snip", PROBE))
+    steps.append(("snip", DEEP_PROBE))
+    if r.chance(40):
+        steps.append(("reset",))
+        steps.append(("snip", PROBE))
+        steps.append(("snip", DEEP_PROBE))
+    return steps, MODS
